@@ -6,7 +6,8 @@
     Part 2: notions used by the property statements (independent of the line-start table).
     Part 3: faithful model of the implementation as it is in /repo:
               crates/ide/src/line_index.rs   LineIndex::{new,pos_to_line,line_to_pos,utf16_col,offset_at}
-              crates/lsp/src/to_proto.rs     position, range
+              crates/lsp/src/to_proto.rs     position, range, folding_range (and the wrappers location, diagnostic,
+                                             document_link, inlay_hint, document_symbol, which only call position / range)
               crates/lsp/src/from_proto.rs   position, range
             one definition per Rust function, same branching and order of effects, explicit [Panic]
             wherever Rust can panic (u32 conversions, usize underflow, str slicing, u32 sum overflow in
@@ -116,6 +117,7 @@ Inductive panic_site :=
 | PSlice          (* str slice index not on a char boundary / out of range / start > end *)
 | PSumOverflow    (* u32 sum overflow in Iterator::sum (debug build) *)
 | PRangeAssert    (* TextRange::new: assert!(start <= end) *)
+| PLineUnwrap     (* to_proto::folding_range: pos_to_line(..).try_into().unwrap() (usize -> u32) *)
 | POutOfFuel.     (* model artefact: loop fuel exhausted (proved unreachable) *)
 
 Inductive res (A : Type) : Type := Ok (a : A) | Panic (p : panic_site).
@@ -274,6 +276,24 @@ Definition to_proto_range (li : LineIndex) (range : N * N) : res ((N * N) * (N *
   s <- to_proto_position li (fst range) ;;
   e <- to_proto_position li (snd range) ;;
   Ok (s, e).
+
+(** [to_proto::folding_range]: start_line / end_line = pos_to_line(range.start() / range.end()), no columns *)
+Definition to_proto_folding_range (li : LineIndex) (range : N * N) : res (N * N) :=
+  s <- pos_to_line li (fst range) ;;
+  s32 <- to_u32 PLineUnwrap s ;;
+  e <- pos_to_line li (snd range) ;;
+  e32 <- to_u32 PLineUnwrap e ;;
+  Ok (s32, e32).
+
+(** [to_proto::inlay_hint] converts its position with [position]; [to_proto::{location, diagnostic,
+    document_link}] convert their range with [range]; [to_proto::document_symbol] converts the symbol's range
+    once with [range] and uses it for both [range] and [selection_range] (children likewise, in order) *)
+Definition to_proto_inlay_hint_position := to_proto_position.
+Definition to_proto_location_range := to_proto_range.
+Definition to_proto_diagnostic_range := to_proto_range.
+Definition to_proto_document_link_range := to_proto_range.
+Definition to_proto_document_symbol_range (li : LineIndex) (range : N * N) :=
+  r <- to_proto_range li range ;; Ok (r, r).
 
 (** [position.line.try_into().unwrap()] (u32 -> usize) cannot fail on the supported targets *)
 Definition from_proto_position (li : LineIndex) (position : N * N) : res N :=
